@@ -876,3 +876,310 @@ Proof.
   rewrite (sim_section files conf_max_depth kw_server file its (m_close m) _ _ _ Hits Hfiles Hdepth Hc (Nat.lt_succ_diag_r _)).
   rewrite (check_trailing_blank _ _ Ha). reflexivity.
 Qed.
+
+(* ================================================================================================
+   F. a single bad line is reported with its file and line
+   ================================================================================================ *)
+Lemma step_bad : forall files ps room continue f name file raw rest ln acc c,
+  bad_line raw = Some c ->
+  section_step files ps room continue f name file raw rest ln acc = RErr (mkerr c file ln).
+Proof.
+  intros files ps room continue f name file raw rest ln acc c H. unfold bad_line in H. unfold section_step.
+  destruct (strip_suffix_byte LBRACE (clean_up raw)); [discriminate|].
+  destruct (beq (clean_up raw) [RBRACE]); [discriminate|].
+  destruct (clean_up raw) as [|x l] eqn:E; [discriminate|].
+  destruct (split_once SP (x :: l)) as [[a b]|]; [|injection H as <-; reflexivity].
+  destruct (negb (beq (trim a) kw_include)).
+  - destruct (type_value (trim a) (trim b)); try discriminate. injection H as <-. reflexivity.
+  - destruct (is_quoted (trim b)); [discriminate|]. injection H as <-. reflexivity.
+Qed.
+
+Lemma scan_items_go : forall file body ln,
+  (fix go (its : list item) (ln : N) : N + cerr :=
+     match its with
+     | [] => inl ln
+     | i :: r => match scan_item file i ln with inl ln' => go r ln' | inr e => inr e end
+     end) body ln = scan_items file body ln.
+Proof. intros file. induction body as [|i r IH]; intros ln; [reflexivity|]. cbn [scan_items]. destruct (scan_item file i ln); [apply IH|reflexivity]. Qed.
+
+(* an item without a bad line inside is well-formed in the strict sense and advances the line counter by its lines *)
+Lemma scan_item_inl : forall it, wf_item_bad it -> forall file ln ln', scan_item file it ln = inl ln' ->
+  wf_item it /\ ln' = ln + N.of_nat (length (render_item it)).
+Proof.
+  induction it using item_ind'; intros Hwf file ln ln' Hs; cbn [wf_item_bad wf_item scan_item render_item] in *.
+  - injection Hs as <-. split; [exact Hwf|cbn [length]; lia].
+  - destruct Hwf as [Hd [Hdc [Hk [Hw1 [Hw2 Hbody]]]]]. rewrite scan_items_go in Hs.
+    assert (Hgen : forall n n', scan_items file body n = inl n' ->
+              fold_right (fun i P => wf_item i /\ P) True body /\ n' = n + N.of_nat (length (flat_map render_item body))).
+    { clear Hs. apply fold_and_forall in Hbody. induction H as [|c cs Hc Hcs IH]; intros n n' Hn.
+      - injection Hn as <-. split; [exact I|cbn; lia].
+      - inversion Hbody as [|? ? Hb1 Hb2]; subst. cbn [scan_items] in Hn.
+        destruct (scan_item file c n) as [n1|e] eqn:E1; [|discriminate].
+        destruct (Hc Hb1 file n n1 E1) as [Hw1' ->]. destruct (IH Hb2 _ _ Hn) as [Hw2' ->].
+        split; [split; assumption|]. cbn [flat_map]. rewrite app_length. lia. }
+    destruct (scan_items file body (ln + 1)) as [n1|e] eqn:E; [|discriminate]. injection Hs as <-.
+    destruct (Hgen _ _ E) as [Hwb ->].
+    split; [exact (conj Hd (conj Hdc (conj Hk (conj Hw1 (conj Hw2 Hwb)))))|].
+    cbn [length]. rewrite app_length. cbn [length]. lia.
+  - destruct Hwf as [Hd [Hg1 [Hg2 [Hp Hbody]]]]. rewrite scan_items_go in Hs.
+    assert (Hgen : forall n n', scan_items path body n = inl n' -> fold_right (fun i P => wf_item i /\ P) True body).
+    { clear Hs. apply fold_and_forall in Hbody. induction H as [|c cs Hc Hcs IH]; intros n n' Hn; [exact I|].
+      inversion Hbody as [|? ? Hb1 Hb2]; subst. cbn [scan_items] in Hn.
+      destruct (scan_item path c n) as [n1|e] eqn:E1; [|discriminate].
+      destruct (Hc Hb1 path n n1 E1) as [Hw1' _]. split; [exact Hw1'|exact (IH Hb2 _ _ Hn)]. }
+    destruct (scan_items path body 0) as [n1|e] eqn:E; [|discriminate]. injection Hs as <-.
+    split; [exact (conj Hd (conj Hg1 (conj Hg2 (conj Hp (Hgen _ _ E)))))|cbn [length]; lia].
+  - injection Hs as <-. split; [exact Hwf|cbn [length]; lia].
+  - destruct Hwf as [Hb _]. destruct (bad_line l); [discriminate|congruence].
+Qed.
+
+Lemma render_item_bad_ok : forall it, wf_item_bad it -> Forall (fun l => line_okb l = true) (render_item it).
+Proof.
+  induction it using item_ind'; intros Hwf.
+  - apply render_item_ok. exact Hwf.
+  - cbn [wf_item_bad render_item] in *. destruct Hwf as [Hd [Hdc [Hk [Hw1 [Hw2 Hbody]]]]]. constructor.
+    + apply line_of_ok; [exact Hd|]. destruct (header_trimmed k w1 Hk Hw1) as [_ Hp].
+      rewrite !plainb_app, Hp, (blankb_plainb _ Hw2). reflexivity.
+    + apply Forall_app. split; [|constructor; [apply line_of_ok; [exact Hdc|reflexivity]|constructor]].
+      apply fold_and_forall in Hbody. clear -H Hbody. induction H as [|c cs Hc Hcs IH]; cbn [flat_map]; [constructor|].
+      inversion Hbody; subst. apply Forall_app. split; [apply Hc; assumption|apply IH; assumption].
+  - cbn [wf_item_bad render_item] in *. destruct Hwf as [Hd [Hg1 [Hg2 [Hp _]]]].
+    apply (render_item_ok (IInc d g1 g2 path [] crlf)). cbn [wf_item fold_right]. exact (conj Hd (conj Hg1 (conj Hg2 (conj Hp I)))).
+  - apply render_item_ok. exact Hwf.
+  - cbn [wf_item_bad render_item] in *. destruct Hwf as [_ Hl]. constructor; [exact Hl|constructor].
+Qed.
+
+Lemma render_items_bad_ok : forall its, wf_items_bad its -> Forall (fun l => line_okb l = true) (render_items its).
+Proof.
+  induction its as [|it its IH]; intros H; [constructor|]. destruct H as [H1 H2].
+  unfold render_items. cbn [flat_map]. apply Forall_app. split; [apply render_item_bad_ok; exact H1|apply IH; exact H2].
+Qed.
+
+Lemma sim_section_err : forall files d nm file its tail ln fuel e,
+  wf_items_bad its -> all_files_ok files its -> (items_depth its < d)%nat ->
+  (length (render_items its ++ tail) < fuel)%nat ->
+  scan_items file its ln = inr e ->
+  parse_section files d fuel nm file (render_items its ++ tail) ln = RErr e.
+Proof.
+  intros files. induction d as [|d' IHd]; intros nm file its tail ln fuel e Hwf Hfiles Hdepth Hfuel Hscan; [lia|].
+  cbn [parse_section]. generalize (@nil node) as acc.
+  assert (Hdepth' : (items_depth its <= d')%nat) by lia. clear Hdepth.
+  revert fuel tail ln Hwf Hfiles Hdepth' Hfuel Hscan.
+  induction its as [|it its IH]; intros fuel tail ln Hwf Hfiles Hdepth Hfuel Hscan acc; [discriminate|].
+  destruct Hwf as [Hwf1 Hwf]. destruct Hfiles as [Hf1 Hfiles]. rewrite items_depth_cons in Hdepth.
+  cbn [scan_items] in Hscan.
+  destruct (scan_item file it ln) as [ln1|e1] eqn:E1.
+  - (* this item is fine: run it with sim_loop, then continue *)
+    destruct (scan_item_inl it Hwf1 file ln ln1 E1) as [Hstrict ->].
+    destruct (sim_loop files d' nm file
+                (fun nm0 its0 dc tl l fu => sim_section files d' nm0 file its0 dc tl l fu)
+                (fun nm0 p its0 dc tl l fu => sim_section files d' nm0 p its0 dc tl l fu)
+                [it] fuel (render_items its ++ tail) ln acc) as [fuel' [Hf' Heq]].
+    + split; [exact Hstrict|exact I].
+    + split; [exact Hf1|exact I].
+    + rewrite items_depth_cons. cbn. lia.
+    + change (render_items [it]) with (render_item it ++ []). rewrite app_nil_r.
+      change (render_items (it :: its)) with (render_item it ++ render_items its) in Hfuel. rewrite <- app_assoc in Hfuel. exact Hfuel.
+    + change (render_items (it :: its)) with (render_item it ++ render_items its). rewrite <- app_assoc.
+      change (render_items [it]) with (render_item it ++ []) in Heq. rewrite app_nil_r in Heq. rewrite Heq.
+      apply IH; [exact Hwf|exact Hfiles|lia|exact Hf'|exact Hscan].
+  - injection Hscan as <-.
+    change (render_items (it :: its)) with (render_item it ++ render_items its) in *. rewrite <- app_assoc in *.
+    destruct it as [d key g1 g2 v|d k w1 w2 body dc|d g1 g2 path body crlf|d|l]; cbn [scan_item] in E1; try discriminate.
+    + (* error inside a section *)
+      rewrite scan_items_go in E1. destruct (scan_items file body (ln + 1)) as [n1|e2] eqn:E2; [discriminate|]. injection E1 as ->.
+      cbn [wf_item_bad files_ok render_item] in *. destruct Hwf1 as [Hd [Hdc [Hk [Hw1 [Hw2 Hbody]]]]].
+      rewrite item_depth_sec in Hdepth.
+      change (flat_map render_item body) with (render_items body) in *.
+      cbn [app] in *. rewrite <- (app_assoc (render_items body) [line_of dc [RBRACE]]) in *. cbn [app] in *.
+      destruct fuel as [|f]; [cbn [length] in Hfuel; lia|]. rewrite section_loop_S.
+      rewrite (step_sec _ _ _ _ _ _ _ _ _ _ _ k w1 w2 (clean_hdr d k w1 w2 Hd Hk Hw1 Hw2) Hk Hw1 Hw2).
+      rewrite (IHd (sec_name k) file body _ (ln + 1) f e1 Hbody Hf1); [reflexivity|lia|cbn [length] in Hfuel; lia|exact E2].
+    + (* error inside an included file *)
+      rewrite scan_items_go in E1. destruct (scan_items path body 0) as [n1|e2] eqn:E2; [discriminate|]. injection E1 as ->.
+      cbn [wf_item_bad files_ok render_item] in *. destruct Hwf1 as [Hd [Hg1 [Hg2 [Hpath Hbody]]]].
+      destruct Hf1 as [Hfile [Hutf Hfbody]]. rewrite item_depth_inc in Hdepth.
+      change (flat_map render_item body) with (render_items body) in *.
+      cbn [app] in *. destruct fuel as [|f]; [cbn [length] in Hfuel; lia|]. rewrite section_loop_S.
+      destruct (wf_str_vtext path Hpath) as [Hvt Hvp].
+      rewrite (step_inc _ _ _ _ _ _ _ _ _ _ _ g1 g2 path
+                 (clean_kv d kw_include g1 g2 _ Hd eq_refl Hg1 Hg2 Hvt Hvp) Hg1 Hg2 Hpath).
+      unfold include_with. destruct d' as [|d'']; [lia|]. cbn [negb]. rewrite Hfile, Hutf.
+      rewrite (lines_file_text crlf (render_items body) [LF; RBRACE] (render_items_bad_ok body Hbody)).
+      rewrite (IHd included_section_name path body (lines [LF; RBRACE]) 0 _ e1 Hbody Hfbody); [reflexivity|lia|lia|exact E2].
+    + (* the bad line itself *)
+      destruct (bad_line l) as [c|] eqn:Eb; [|discriminate]. injection E1 as <-.
+      cbn [render_item app] in *. destruct fuel as [|f]; [cbn [length] in Hfuel; lia|]. rewrite section_loop_S.
+      apply step_bad. exact Eb.
+Qed.
+
+Lemma main_lines_bad_ok : forall m its, wf_main m -> wf_items_bad its -> Forall (fun l => line_okb l = true) (main_lines m its).
+Proof.
+  intros m its [Hb [Ho [Hc Ha]]] Hits. unfold main_lines.
+  assert (Hblank : forall ds, Forall wf_deco ds -> Forall (fun l => line_okb l = true) (map (fun d => line_of d []) ds)).
+  { intros ds H. induction H; cbn [map]; constructor; [apply line_of_ok; [assumption|reflexivity]|assumption]. }
+  apply Forall_app. split; [apply Hblank; exact Hb|].
+  constructor; [apply line_of_ok; [exact Ho|reflexivity]|].
+  apply Forall_app. split; [apply render_items_bad_ok; exact Hits|].
+  constructor; [apply line_of_ok; [exact Hc|reflexivity]|apply Hblank; exact Ha].
+Qed.
+
+(* C15: a file whose first bad line is at (file', line') is rejected with exactly that file and line, whatever the layout,
+   wherever the line is (top level, nested sections, include files) *)
+Theorem reject_line : forall files file m its e,
+  wf_main m -> wf_items_bad its -> all_files_ok files its -> (items_depth its < conf_max_depth)%nat ->
+  scan_items file its (N.of_nat (length (m_before m)) + 1) = inr e ->
+  parse_conf files file (render_main m its) = RErr e.
+Proof.
+  intros files file m its e Hm Hits Hfiles Hdepth Hscan. unfold parse_conf, render_main.
+  rewrite <- (app_nil_r (file_text (m_crlf m) (main_lines m its))).
+  rewrite (lines_file_text _ _ [] (main_lines_bad_ok m its Hm Hits)). cbn [lines]. rewrite app_nil_r.
+  destruct Hm as [Hb [Ho [Hc Ha]]]. unfold main_lines.
+  rewrite (find_server_skip _ _ _ Hb). unfold server_line. cbn [find_server].
+  rewrite (clean_server_line _ Ho). rewrite beq_refl. rewrite N.add_0_l.
+  rewrite (sim_section_err files conf_max_depth kw_server file its _ _ _ e Hits Hfiles Hdepth (Nat.lt_succ_diag_r _) Hscan).
+  reflexivity.
+Qed.
+
+Lemma wf_item_bad_of_wf : forall it, wf_item it -> wf_item_bad it.
+Proof.
+  induction it using item_ind'; intros Hwf; cbn [wf_item wf_item_bad] in *; try exact Hwf.
+  - destruct Hwf as [Hd [Hdc [Hk [Hw1 [Hw2 Hbody]]]]]. refine (conj Hd (conj Hdc (conj Hk (conj Hw1 (conj Hw2 _))))).
+    apply fold_and_forall. apply fold_and_forall in Hbody. clear -H Hbody.
+    induction H; constructor; inversion Hbody; subst; auto.
+  - destruct Hwf as [Hd [Hg1 [Hg2 [Hp Hbody]]]]. refine (conj Hd (conj Hg1 (conj Hg2 (conj Hp _)))).
+    apply fold_and_forall. apply fold_and_forall in Hbody. clear -H Hbody.
+    induction H; constructor; inversion Hbody; subst; auto.
+  - destruct Hwf.
+Qed.
+
+Lemma scan_item_wf : forall it, wf_item it -> forall file ln, scan_item file it ln = inl (ln + N.of_nat (length (render_item it))).
+Proof.
+  induction it using item_ind'; intros Hwf file ln; cbn [wf_item scan_item render_item] in *.
+  - cbn [length]. first [reflexivity|f_equal; lia].
+  - destruct Hwf as [_ [_ [_ [_ [_ Hbody]]]]]. rewrite scan_items_go.
+    assert (Hgen : forall n, scan_items file body n = inl (n + N.of_nat (length (flat_map render_item body)))).
+    { apply fold_and_forall in Hbody. clear -H Hbody. induction H as [|c cs Hc Hcs IH]; intros n; [cbn; f_equal; lia|].
+      inversion Hbody; subst. cbn [scan_items flat_map]. rewrite Hc by assumption. rewrite IH by assumption.
+      f_equal. rewrite app_length. lia. }
+    rewrite Hgen. f_equal. cbn [length]. rewrite app_length. cbn [length]. lia.
+  - destruct Hwf as [_ [_ [_ [_ Hbody]]]]. rewrite scan_items_go.
+    assert (Hgen : forall n, exists n', scan_items path body n = inl n').
+    { apply fold_and_forall in Hbody. clear -H Hbody. induction H as [|c cs Hc Hcs IH]; intros n; [eexists; reflexivity|].
+      inversion Hbody; subst. cbn [scan_items]. rewrite Hc by assumption. apply IH. assumption. }
+    destruct (Hgen 0) as [n' ->]. cbn [length]. first [reflexivity|f_equal; lia].
+  - cbn [length]. first [reflexivity|f_equal; lia].
+  - destruct Hwf.
+Qed.
+
+Lemma scan_items_wf_app : forall pre rest file ln, wf_items pre ->
+  scan_items file (pre ++ rest) ln = scan_items file rest (ln + N.of_nat (length (render_items pre))).
+Proof.
+  induction pre as [|it pre IH]; intros rest file ln H; [cbn; rewrite N.add_0_r; reflexivity|].
+  destruct H as [H1 H2]. cbn [app scan_items]. rewrite (scan_item_wf it H1). rewrite IH by exact H2.
+  f_equal. change (render_items (it :: pre)) with (render_item it ++ render_items pre). rewrite app_length. lia.
+Qed.
+
+(* the single-fault form: well-formed items, one bad line among the items of the server section, anything well-formed after it:
+   the error names the main file and the line of the bad line *)
+Theorem reject_line_top : forall files file m pre l post c,
+  wf_main m -> wf_items pre -> wf_items post -> all_files_ok files (pre ++ post) ->
+  (items_depth (pre ++ post) < conf_max_depth)%nat ->
+  bad_line l = Some c -> forallb (fun b => negb (b =? 10) && negb (b =? 13)) l = true ->
+  parse_conf files file (render_main m (pre ++ IRaw l :: post)) =
+  RErr (mkerr c file (N.of_nat (length (m_before m)) + 1 + N.of_nat (length (render_items pre)) + 1)).
+Proof.
+  intros files file m pre l post c Hm Hpre Hpost Hfiles Hdepth Hbad Hl.
+  apply reject_line; [exact Hm| | | |].
+  - apply fold_and_forall. apply Forall_app. split.
+    + apply fold_and_forall in Hpre. eapply Forall_impl; [|exact Hpre]. apply wf_item_bad_of_wf.
+    + constructor; [split; [congruence|exact Hl]|]. apply fold_and_forall in Hpost.
+      eapply Forall_impl; [|exact Hpost]. apply wf_item_bad_of_wf.
+  - apply all_files_ok_app in Hfiles. destruct Hfiles as [Ha Hb]. apply all_files_ok_app. split; [exact Ha|split; [exact I|exact Hb]].
+  - rewrite items_depth_app in *. rewrite items_depth_cons. cbn [item_depth]. lia.
+  - rewrite scan_items_wf_app by exact Hpre. cbn [scan_items scan_item]. rewrite Hbad. reflexivity.
+Qed.
+
+(* ---- the mutation classes of the property, as bad lines ---- *)
+Lemma bad_line_of : forall d text, wf_deco d -> plainb text = true -> vis_ends text ->
+  bad_line (line_of d text) =
+  match strip_suffix_byte LBRACE text with
+  | Some _ => None
+  | None =>
+    if beq text [RBRACE] then None
+    else match split_once SP text with
+         | None => Some E_Syntax
+         | Some (a, b) =>
+           if negb (beq (trim a) kw_include) then match type_value (trim a) (trim b) with Err c => Some c | _ => None end
+           else if is_quoted (trim b) then None else Some E_IncValue
+         end
+  end.
+Proof.
+  intros d text Hd Hp Hv. unfold bad_line. rewrite (clean_up_line d text Hd Hp (or_intror Hv)).
+  destruct (strip_suffix_byte LBRACE text); [reflexivity|]. destruct (beq text [RBRACE]); [reflexivity|].
+  destruct text; [destruct Hv; congruence|reflexivity].
+Qed.
+
+(* missing value: a key alone on its line *)
+Theorem missing_value_bad : forall d key, wf_deco d -> keyb key = true -> key <> [RBRACE] -> last key 0 <> LBRACE ->
+  bad_line (line_of d key) = Some E_Syntax.
+Proof.
+  intros d key Hd Hk Hnb Hl. destruct (keyb_vis_ends key Hk) as [Hv [Hp Hsp]].
+  rewrite (bad_line_of d key Hd Hp Hv).
+  rewrite strip_suffix_byte_none; [|destruct Hv; assumption|exact Hl].
+  replace (beq key [RBRACE]) with false by (symmetry; destruct (beq key [RBRACE]) eqn:E; [apply beq_eq in E; congruence|reflexivity]).
+  rewrite split_once_none by exact Hsp. reflexivity.
+Qed.
+
+(* a key with a value text that does not type: bad number, unknown unit, unterminated quote, non-ASCII in a number ... *)
+Theorem bad_value_bad : forall d key g1 g2 vt, wf_deco d -> keyb key = true -> key <> kw_include ->
+  tabsb g1 = true -> blankb g2 = true -> vtext_ok vt -> plainb vt = true ->
+  type_value key vt = Err E_Value ->
+  bad_line (line_of d (kv_text key g1 g2 vt)) = Some E_Value.
+Proof.
+  intros d key g1 g2 vt Hd Hk Hki Hg1 Hg2 Hvt Hp Htv. unfold bad_line.
+  rewrite (clean_kv d key g1 g2 vt Hd Hk Hg1 Hg2 Hvt Hp).
+  destruct (kv_split key g1 g2 vt Hk Hg1 Hg2 Hvt) as [H1 [H2 [H3 [H4 [H5 H6]]]]].
+  destruct (kv_text key g1 g2 vt) eqn:E; [congruence|]. rewrite H1, H2, H4, H5, H6.
+  replace (beq key kw_include) with false by (symmetry; destruct (beq key kw_include) eqn:Eb; [apply beq_eq in Eb; congruence|reflexivity]).
+  cbn [negb]. rewrite Htv. reflexivity.
+Qed.
+
+(* an include directive whose argument is not quoted *)
+Theorem bad_include_bad : forall d g1 g2 vt, wf_deco d -> tabsb g1 = true -> blankb g2 = true -> vtext_ok vt -> plainb vt = true ->
+  is_quoted vt = false ->
+  bad_line (line_of d (kv_text kw_include g1 g2 vt)) = Some E_IncValue.
+Proof.
+  intros d g1 g2 vt Hd Hg1 Hg2 Hvt Hp Hq. unfold bad_line.
+  rewrite (clean_kv d kw_include g1 g2 vt Hd eq_refl Hg1 Hg2 Hvt Hp).
+  destruct (kv_split kw_include g1 g2 vt eq_refl Hg1 Hg2 Hvt) as [H1 [H2 [H3 [H4 [H5 H6]]]]].
+  destruct (kv_text kw_include g1 g2 vt) eqn:E; [congruence|]. rewrite H1, H2, H4, H5, H6.
+  rewrite beq_refl. cbn [negb]. rewrite Hq. reflexivity.
+Qed.
+
+(* unterminated quote: an opening quote without a closing one never types *)
+Lemma parse_i64_quote_head : forall r, parse_i64 (34 :: r) = None.
+Proof. intros r. reflexivity. Qed.
+
+Theorem unterminated_quote_value : forall key s, forallb (fun b => negb (b =? 34)) s = true ->
+  type_value key (QUOTE :: s) = Err E_Value.
+Proof.
+  intros key s Hs. unfold type_value.
+  assert (Hq : is_quoted (QUOTE :: s) = false).
+  { unfold is_quoted, QUOTE. destruct s as [|a s']; [reflexivity|]. remember (a :: s') as s0.
+    assert (Hin : In (last s0 0) s0).
+    { assert (Hne : s0 <> []) by (subst; discriminate). rewrite (app_removelast_last 0 Hne) at 2. apply in_or_app. right. left. reflexivity. }
+    rewrite forallb_forall in Hs. specialize (Hs _ Hin). apply negb_true_iff in Hs. exact Hs. }
+  rewrite Hq. unfold QUOTE. rewrite parse_i64_quote_head.
+  assert (Hb : parse_bool (34 :: s) = None) by reflexivity. rewrite Hb.
+  unfold parse_size. destruct s as [|a s']; [reflexivity|].
+  remember (34 :: a :: s') as sz. unfold split_last_char. destruct sz as [|z sz']; [discriminate|].
+  destruct (take_cont (rev (z :: sz')) []) as [rr c] eqn:Etc.
+  destruct (take_cont_app _ _ _ _ Etc) as [c0 [Hc Hrl]].
+  assert (Hrr : rr = [] \/ exists t, rev rr = 34 :: t).
+  { destruct rr as [|x rr']; [left; reflexivity|right].
+    apply (f_equal (@rev N)) in Hrl. rewrite rev_involutive, rev_app_distr, rev_involutive in Hrl.
+    rewrite Heqsz in Hrl. destruct (rev (x :: rr')) as [|y t] eqn:Er; [apply (f_equal (@length N)) in Er; rewrite rev_length in Er; discriminate|].
+    cbn [app] in Hrl. injection Hrl as <- _. exists t. reflexivity. }
+  destruct Hrr as [-> | [t Hr]]; [reflexivity|rewrite Hr; reflexivity].
+Qed.
